@@ -382,7 +382,7 @@ func checkFastCodec(c FCCase, cv *cov) (v *evid.Violation) {
 		if c.Kind == 2 || m.extra != nil {
 			// a receiver on which a read of a truncated image failed is read into again
 			z2 := newFC(c.Kind, &old)
-			for _, cut := range []int{len(img) / 3, len(img) - 1} {
+			for _, cut := range []int{len(img) / 3, len(img) / 2, 2 * len(img) / 3, 3 * len(img) / 4, 7 * len(img) / 8, len(img) - 6, len(img) - 3, len(img) - 2, len(img) - 1} {
 				if cut > 0 {
 					if _, err := z2.FastRead(img[:cut:cut]); err == nil {
 						v = evid.Failf("%s.FastRead accepted an image cut to %d of %d bytes", name, cut, len(img))
@@ -398,6 +398,24 @@ func checkFastCodec(c FCCase, cv *cov) (v *evid.Violation) {
 			if d := eqModel(c.Kind, &got2, &m); d != "" {
 				v = evid.Failf("%s.FastRead after failed reads of truncated images on the same receiver does not reproduce the value: %s", name, d)
 				return
+			}
+			// after those rejected reads, ANOTHER message (other strings, other map keys) read into a fresh
+			// receiver must come out as exactly that message (nothing of the rejected ones may be left anywhere)
+			if c.Kind != 2 {
+				om := fcModel{s: [3]string{"o1", "", "o3"}, i32: 7, extra: map[string]string{"other-key": "other-value", "": "e"}}
+				ox := newFC(c.Kind, &om)
+				oimg := make([]byte, ox.BLength())
+				ox.FastWrite(oimg)
+				z3 := newFC(c.Kind, nil)
+				if n3, err := z3.FastRead(oimg); err != nil || n3 != len(oimg) {
+					v = evid.Failf("%s.FastRead of another message after rejected reads returned (%d,%v), want (%d,nil)", name, n3, err, len(oimg))
+					return
+				}
+				got3 := readBack(c.Kind, z3)
+				if d := eqModel(c.Kind, &got3, &om); d != "" {
+					v = evid.Failf("%s: after reads of truncated images were rejected (some of them inside the Extra map), another message read into a fresh receiver does not come out as written: %s", name, d)
+					return
+				}
 			}
 			// the result just obtained (its Extra map) is now held by the caller; further failing reads into
 			// the same receiver must not reach into it
